@@ -315,18 +315,34 @@ def rt_sandwich(seed, n, constant=False):
             out.append(dict(name='rt:PBVI<=QMDP+slack', ok=pv <= qv + slack, witness=dict(w, b=repr(b.tolist()), pbvi=pv, qmdp=qv)))
             if sk.name.endswith('revealing'):
                 out.append(dict(name='rt:revealing-observations:PBVI-and-QMDP-bracket-the-optimum', ok=(pv <= hi + slack) and (qv >= lo - 1e-7), witness=w))
-        # expand_beliefs contract
-        bs = np.array([pomdp.initial_state_vec], dtype=float)
+        # expand_beliefs contract; the input set also holds beliefs that MIX absorbing and non-absorbing states and a vertex
+        extra = []
+        nS = tf.shape[0]
+        for _ in range(2):
+            wgt = np.array([rnd.random() + 0.05 for _ in range(nS)])
+            extra.append(wgt / wgt.sum())
+        extra.append(np.eye(nS)[rnd.randrange(nS)])
+        bs = np.unique(np.array([np.asarray(pomdp.initial_state_vec, dtype=float)] + extra), axis=0)
         nb_ = pb.expand_beliefs(pomdp, bs)
         ok = all(any(np.allclose(x, y) for y in nb_) for x in bs) and all(abs(x.sum() - 1) < 1e-9 and (x >= -1e-12).all() for x in nb_)
         posts = []
+        progress = True
         for b in bs:
+            mine = []
             for ai in range(tf.shape[1]):
                 for oi in range(of.shape[2]):
-                    tau = (b @ tf[:, ai, :]) * of[ai, :, oi]
+                    tau = (b @ tf[:, ai, :]) * of[ai, :, oi]        # full model: absorbing states keep their (self-loop) dynamics here, as in next_beliefs
                     if tau.sum() > 0:
-                        posts.append(tau / tau.sum())
+                        mine.append(tau / tau.sum())
+            posts += mine
+            # progress: the successor(s) of b farthest from the current set (Euclidean, as scipy's cdist default) are added, unless none is new
+            dist = [min(float(np.linalg.norm(x - y)) for y in bs) for x in mine]
+            if mine and max(dist) > 1e-9:
+                far = [x for x, d_ in zip(mine, dist) if abs(d_ - max(dist)) < 1e-12]
+                progress = progress and all(any(np.allclose(x, y, atol=1e-10) for y in nb_) for x in far)
         ok = ok and all(any(np.allclose(x, y) for y in list(bs) + posts) for x in nb_)
+        out.append(dict(name='rt:expand_beliefs:the-farthest-successor-of-EVERY-member-is-added(incl. members with mass on absorbing states)', ok=bool(progress),
+                        witness=dict(w, bs=repr(bs.tolist()), result=repr(np.asarray(nb_).tolist()))))
         out.append(dict(name='rt:expand_beliefs:superset-of-the-input;every-added-point-is-a-Bayes-posterior-of-a-member;all-on-the-simplex', ok=bool(ok), witness=w))
     return out
 
